@@ -396,6 +396,11 @@ class Body:
         return None
 
     def locals_named(self, name):
+        # locals of the function itself come first; locals that arrived with a spliced helper / closure body
+        # (sa/inline.py, sa/lower.py) only count when the function has none of that name
+        own = [l["i"] for l in self.locals if l["name"] == name and not l.get("inlined")]
+        if own:
+            return own
         return [l["i"] for l in self.locals if l["name"] == name]
 
     def upvar_names(self):
